@@ -26,6 +26,10 @@ class Hang(BaseException):
     pass
 
 
+class UserBoom(Exception):
+    """raised by the scenario's on_next callback (scn.ur-th invocation of a user callback)"""
+
+
 def _alarm(signum, frame):
     raise Hang()
 
@@ -209,7 +213,10 @@ def build(scn: Dict[str, Any], form: Dict[str, str], counter: Counter, profile: 
     def const_true(*_a):
         return True
 
+    mytag = counter.tag
+
     def mk(i: int):
+        counter.tag = mytag       # sources (also inner ones built later, from inside a callback) belong to this pipeline
         n = nd[i - 1]
         k = n["k"]
         if k == "loop":
@@ -384,11 +391,24 @@ def perform(scn: Dict[str, Any], form: Dict[str, str], profile: str = "plain", w
     flags = {"done": 0, "err": 0, "late": 0, "sub_returned": False, "udisp": False}
     holder: List[Any] = []
     dsp = scn.get("dsp", 0)
+    ur = scn.get("ur", 0)
+    ucalls = [0]
+    nd0 = scn["nd"][0]
+    pair = nd0["k"] == "pair"
+    out2: List[Any] = []
+    flags2 = {"done": 0, "late": 0}
+    escaped = 0
+
+    def boom():
+        ucalls[0] += 1
+        if ur and ucalls[0] == ur:
+            raise UserBoom()
 
     def on_next(v):
         out.append(v)
         if flags["done"] or flags["err"] or flags["udisp"]:
             flags["late"] += 1
+        boom()
         if dsp and len(out) == dsp and holder:     # the user unsubscribes from inside the callback
             flags["udisp"] = True
             holder[0].dispose()
@@ -398,11 +418,25 @@ def perform(scn: Dict[str, Any], form: Dict[str, str], profile: str = "plain", w
             flags["late"] += 1
         flags["err"] += 1
         flags["error"] = type(e).__name__
+        boom()
 
     def on_completed():
         if flags["done"] or flags["err"]:
             flags["late"] += 1
         flags["done"] += 1
+        boom()
+
+    def on_next2(v):
+        out2.append(v)
+        if flags2["done"]:
+            flags2["late"] += 1
+
+    def on_done2(*_a):
+        if flags2["done"]:
+            flags2["late"] += 1
+        flags2["done"] += 1
+
+    counter.ended = {1: lambda: bool(flags["done"] or flags["err"] or flags["udisp"]), 2: lambda: bool(flags2["done"])}
 
     cfg = scn["cfg"]
     sched = make_scheduler(cfg, form)
@@ -419,20 +453,28 @@ def perform(scn: Dict[str, Any], form: Dict[str, str], profile: str = "plain", w
     patches = _Patches(counter)
     try:
         with patches:
-            obs = build(scn, form, counter, profile, src_sched)
-            if scn["ctx"] == "top":
-                holder.append(obs.subscribe(on_next, on_error, on_completed, **kw))
-            else:
-                from reactivex.scheduler import CurrentThreadScheduler
-
-                def act(_s, _st=None):
+            obs = build(scn, form, counter, profile, src_sched, root=nd0["a"] if pair else 1)
+            try:
+                if scn["ctx"] == "top":
                     holder.append(obs.subscribe(on_next, on_error, on_completed, **kw))
+                else:
+                    from reactivex.scheduler import CurrentThreadScheduler
+
+                    def act(_s, _st=None):
+                        holder.append(obs.subscribe(on_next, on_error, on_completed, **kw))
+                        flags["sub_returned"] = True
+                    CurrentThreadScheduler.singleton().schedule(act)
+                if cfg == "vts":     # the virtual-time scheduler only collected work so far (TestScheduler.start is a different helper)
+                    from reactivex.scheduler import VirtualTimeScheduler
                     flags["sub_returned"] = True
-                CurrentThreadScheduler.singleton().schedule(act)
-            if cfg == "vts":     # the virtual-time scheduler only collected work so far (TestScheduler.start is a different helper)
-                from reactivex.scheduler import VirtualTimeScheduler
-                flags["sub_returned"] = True
-                VirtualTimeScheduler.start(sched)
+                    VirtualTimeScheduler.start(sched)
+            except UserBoom:       # the caller catches what its own callback raised ...
+                escaped += 1
+            if pair:               # ... and subscribes again on the same thread: a healthy pipeline
+                counter.phase2 = True
+                counter.tag = 2
+                obs2 = build(scn, form, counter, profile, src_sched, root=nd0["b"])
+                obs2.subscribe(on_next2, on_done2, on_done2, **kw)
     except BudgetExhausted:
         outcome = "budget"
     except Hang:
@@ -447,7 +489,9 @@ def perform(scn: Dict[str, Any], form: Dict[str, str], profile: str = "plain", w
         sys.setrecursionlimit(old_limit)
     counter.closed = True
     got = {"outcome": outcome, "returned": outcome == "returned", "pulled": counter.n, "emitted": len(out),
-           "done": bool(flags["done"] or flags["err"]), "late": flags["late"], "errors": flags["err"], "udisp": flags["udisp"]}
+           "done": bool(flags["done"] or flags["err"]), "late": flags["late"] + flags2["late"], "errors": flags["err"],
+           "udisp": flags["udisp"], "latepull": counter.late, "stale": counter.stale, "emitted2": len(out2),
+           "done2": bool(flags2["done"]), "escaped": escaped}
     if extra:
         got["raised"] = extra
     if flags.get("error"):
@@ -577,7 +621,9 @@ _HANGS = [0]
 
 def _same(got, m, form) -> bool:
     return (got["returned"] == m["returned"] and got["pulled"] == m["pulled"] and got["done"] == m["done"]
-            and (form["take"] != "take" or got["emitted"] == m["emitted"]))
+            and got["stale"] == m.get("stale", 0) and got["done2"] == m.get("done2", False)
+            and got["escaped"] == m.get("escaped", 0) and got["latepull"] == m.get("latepull", 0)
+            and (form["take"] != "take" or (got["emitted"] == m["emitted"] and got["emitted2"] == m.get("emitted2", 0))))
 
 
 def judge(scn: Dict[str, Any], allowed: List[Dict[str, Any]], form: Dict[str, str], profile: str, confirm: bool = True):
@@ -606,10 +652,18 @@ def judge(scn: Dict[str, Any], allowed: List[Dict[str, Any]], form: Dict[str, st
         or next((m for m in allowed if m["returned"] == got["returned"]), allowed[0])
     # property level: subscribe() returns normally before the work budget is used up and the sink sees N* C?
     # (only for pipelines that can terminate at all: obs.applicable, the module's scope predicate)
-    if (not got["returned"] and model["applicable"]) or got["late"]:
+    # ... and "the source stops producing": the counted sources are advanced exactly as often as the spec's execution of the
+    # scenario says (obs.pulled - e.g. exactly k times under take(k)), never after the pipeline's subscriber was done with it
+    # (obs.latepull = 0), never on behalf of a pipeline whose subscribe() raised and was abandoned (obs.stale = 0)
+    over = got["returned"] and model["returned"] and (
+        got["pulled"] > model["pulled"] or got["latepull"] > model.get("latepull", 0) or got["stale"] > model.get("stale", 0))
+    if (not got["returned"] and model["applicable"]) or got["late"] or over:
         kinds = sorted({n["k"] for n in nd if n["k"] in INF_KINDS})
         fail = {"engine": "subscribe", "shape": shape_name(nd), "cfg": scn["cfg"], "ctx": scn["ctx"], "user_dispose_at": scn.get("dsp", 0),
-                "failure": got["outcome"] if not got["returned"] else "grammar",
+                "failure": got["outcome"] if not got["returned"] else ("grammar" if got["late"] else
+                            "stale_work" if got["stale"] > model.get("stale", 0) else
+                            "pull_after_end" if got["latepull"] > model.get("latepull", 0) else "overpull"),
+                "user_raises_at": scn.get("ur", 0), "stale_pulls": got["stale"], "pulls_after_end": got["latepull"],
                 "sink_completed": got["done"], "infinite_kinds": kinds,
                 "loop_sites": sites(nd, "loop"), "loop_sites_lazy_sibling": sites_with_lazy_sibling(nd, "loop"), "model_returned": model["returned"], "model_cause": model["cause"],
                 "form": form, "profile": profile, "scn": scn, "model": model, "allowed": allowed, "observed": got}
@@ -617,6 +671,12 @@ def judge(scn: Dict[str, Any], allowed: List[Dict[str, Any]], form: Dict[str, st
     take_forms_plain = form["take"] == "take"
     if got["returned"] != model["returned"]:
         drift = f"verdict: model returned={model['returned']} real outcome={got['outcome']}"
+    elif got["escaped"] != model.get("escaped", 0):
+        drift = f"exceptions reaching the caller: model {model.get('escaped')} real {got['escaped']}"
+    elif got["stale"] != model.get("stale", 0) or got["latepull"] != model.get("latepull", 0):
+        drift = f"stale/late pulls: model {model.get('stale')}/{model.get('latepull')} real {got['stale']}/{got['latepull']}"
+    elif got["done2"] != model.get("done2", False):
+        drift = f"second pipeline completed: model {model.get('done2')} real {got['done2']}"
     elif got["udisp"] != model.get("udisp", False):
         drift = f"user dispose reached: model {model.get('udisp')} real {got['udisp']}"
     elif got["pulled"] != model["pulled"]:
